@@ -32,6 +32,7 @@ type Ctx struct {
 	KnownHit map[string]string
 	seenViol map[string]bool
 	SigHook  func(doc []byte, sig string) string
+	Aborted  bool // a call hung: its goroutine still spins or blocks; stop exploring
 }
 
 type checkFn func(c *Ctx)
